@@ -6,6 +6,8 @@ float64 copies of the single column in pure Python (fsum), tolerance by containe
 """
 import os
 
+import warnings
+
 import numpy as np
 
 from rv import core, zoo, monitors, fcsgen
@@ -146,7 +148,26 @@ def run(ctx):
                     ctx.case_done(class_key=(st, cname, kind, fname), nontrivial=s.shape[0] >= 3 and bool(np.any(A != A[0])),
                                   distinct_key=core.digest(cid, cname, st, fname),
                                   sample=desc if (cid[1] < 1 and st == 'iqr' and fname == 'name') else None)
-            # ---- defining identities on this container
+            # ---- a container without events (e.g. after a gate that keeps nothing): no definition applies, but an answer,
+            # if one is given, has the shape of the request and is the same for array and sample and per channel
+            if cid[1] % 3 == 0:
+                e, pe = s[:0], plain[:0]
+                for st in NAMES:
+                    fn = getattr(F.stats, st)
+                    for fname, ch, pos in forms:
+                        if fname.startswith('x:'):
+                            continue
+                        with np.errstate(all='ignore'), warnings.catch_warnings():
+                            warnings.simplefilter('ignore')
+                            o, oa = core.attempt(fn, e, ch), core.attempt(fn, pe, pos)
+                        ctx.counters['chk:empty'] += 1
+                        if o.raised or oa.raised:
+                            ctx.note('empty container: %s raises (%s)' % (st, 'both' if o.raised and oa.raised else 'one of array/sample'))
+                            continue
+                        want_shape = (s.shape[1],) if pos is None else ((len(pos),) if isinstance(pos, list) else ())
+                        ctx.check(np.shape(o.value) == want_shape and np.shape(oa.value) == want_shape, 'empty:result-shape', cid,
+                                  stat=st, form=fname, got=[list(np.shape(o.value)), list(np.shape(oa.value))], want=list(want_shape))
+                        ctx.check(close(o.value, oa.value, 1e-12), 'empty:array-vs-sample', cid, stat=st, form=fname)
             with np.errstate(all='ignore'):
                 v = {st: core.attempt(getattr(F.stats, st), s) for st in NAMES}
             tol = monitors.stat_tol(s.dtype)
